@@ -306,6 +306,10 @@ func prepareImplCached(text string) *compiled {
 	if c, ok := implCache[text]; ok {
 		return c
 	}
+	if len(implCache) >= 20000 {
+		// a worker that meets millions of different expressions must not keep them all
+		implCache = map[string]*compiled{}
+	}
 	c := prepareImpl(text)
 	implCache[text] = c
 	return c
